@@ -145,42 +145,41 @@ def r2_isa_offsets(ctx):
     reads = [c for c in A.calls_in(fn) if A.call_target(c)[1] == 'read']
     if not reads:
         raise AnalysisError('RawX12File.__init__ no longer reads the header')
-    # the header variable and its subscripts
-    subs = {}
-    hdr = None
-    for n in ast.walk(fn):
-        if isinstance(n, ast.Assign) and len(n.targets) == 1:
-            t = path_of(n.targets[0])
-            for s in ast.walk(n.value):
-                if isinstance(s, ast.Subscript) and isinstance(s.value, ast.Name):
-                    try:
-                        if isinstance(s.slice, ast.Slice):
-                            lo = A.ev(s.slice.lower, consts) if s.slice.lower is not None else 0
-                            hi = A.ev(s.slice.upper, consts) if s.slice.upper is not None else None
-                            idx = (lo, hi)
-                        else:
-                            idx = A.ev(s.slice, consts)
-                    except A.NotClosed:
-                        continue
-                    if t and t.startswith('self.'):
-                        subs[t[5:]] = (s.value.id, idx, s)
-                        hdr = s.value.id
-
-    def normidx(i):
-        if isinstance(i, int) and i < 0 and isa_len:
-            return isa_len + i
-        return i
+    # where each delimiter is read from, decided by evaluating the expression bound to the attribute over a header whose
+    # "character" at offset i is the number i (per interchange version, with the module constants)
+    from .c02 import _whitelist as _wl
+    modc = A.module_constants(m.tree)
     want = {'seg_term': derived['seg_term'], 'ele_term': derived['ele_sep'], 'subele_term': derived['ISA16'],
-            'repetition_term': derived['ISA11'], 'icvn': derived['ISA12']}
+            'repetition_term': derived['ISA11'], 'icvn': tuple(range(*derived['ISA12']))}
+    binds = {}
+    for n in ast.walk(fn):
+        if isinstance(n, ast.Assign) and len(n.targets) == 1 and (path_of(n.targets[0]) or '').startswith('self.'):
+            binds.setdefault(path_of(n.targets[0])[5:], []).append(n)
+    isa_len = consts.get('ISA_LEN')
     for attr, w in want.items():
-        got = subs.get(attr)
         key = 'rawx12file:RawX12File.__init__ %s offset' % attr
-        if got is None:
+        defs = [n for n in binds.get(attr, []) if any(isinstance(x, ast.Subscript) for x in ast.walk(n.value))]
+        if not defs:
             yield Ob(key, False, ctx.floc(fn), 'no header subscript assigned to self.%s' % attr)
             continue
-        g = normidx(got[1])
-        ok = g == w
-        yield Ob(key, ok, ctx.floc(fn, got[2]), '' if ok else 'reads header[%s], the ISA layout puts it at %s' % (got[1], w))
+        n = defs[-1]
+        hdrs = {x.value.id for x in ast.walk(n.value) if isinstance(x, ast.Subscript) and isinstance(x.value, ast.Name) and x.value.id not in modc}
+        if len(hdrs) != 1 or not isinstance(isa_len, int):
+            raise AnalysisError('RawX12File.__init__: the header variable behind self.%s is not recognised' % attr)
+        got = {}
+        for v in sorted(_wl(ctx)):
+            env = dict(modc)
+            env.update({next(iter(hdrs)): tuple(range(isa_len)), 'self.icvn': v})
+            try:
+                got[v] = A.ev(n.value, env)
+            except (A.NotClosed, TypeError, KeyError, IndexError) as e:
+                raise AnalysisError('RawX12File.__init__: the offset of self.%s cannot be evaluated: %s' % (attr, e))
+        if attr == 'repetition_term':
+            # ISA11 is the repetition separator from version 00501 on; before that the position holds the standards id
+            ok = got.get('00501') == w and all(g_ in (w, None) for g_ in got.values())
+        else:
+            ok = all(g_ == w for g_ in got.values())
+        yield Ob(key, ok, ctx.floc(fn, n), '' if ok else 'reads header offset %s, the ISA layout puts it at %s' % (got, w))
     # 'ISA' literal test on the first three characters
     ok = False
     for n in ast.walk(fn):
@@ -189,13 +188,8 @@ def r2_isa_offsets(ctx):
             ok = True
     yield Ob('rawx12file:RawX12File.__init__ tests the first three characters for ISA', ok, ctx.floc(fn), '' if ok else 'header tag test changed')
     # version whitelist = control map files present = versions the callers select a control map for
-    wl = None
-    for n in ast.walk(fn):
-        if isinstance(n, ast.Compare) and isinstance(n.ops[0], (ast.NotIn, ast.In)) and path_of(n.left) == 'self.icvn' \
-                and isinstance(n.comparators[0], (ast.Tuple, ast.List, ast.Set)):
-            wl = {A.const(x) for x in n.comparators[0].elts}
-    if wl is None:
-        raise AnalysisError('RawX12File.__init__: version whitelist not found')
+    from .c02 import _whitelist
+    wl = _whitelist(ctx)
     files = {f[len('x12.control.'):-4] for f in os.listdir(ctx.maps.dir) if f.startswith('x12.control.') and f.endswith('.xml')}
     ok = wl == files
     yield Ob('rawx12file:RawX12File.__init__ version whitelist = control maps shipped', ok, ctx.floc(fn),
@@ -522,7 +516,8 @@ def r6_isa_not_subsplit(ctx):
         g = ctx.cfg(fn)
         env0 = {'self.seg_id': 'ISA'}
         for a_ in fn.args.args:
-            if a_.arg != 'self':
+            # the separators are symbolic constants; the text of the segment stays unknown (both outcomes of every test on it)
+            if a_.arg != 'self' and a_.arg.endswith('_term'):
                 env0[a_.arg] = '<%s>' % a_.arg
         for t in ('seg_term', 'ele_term', 'subele_term', 'repetition_term'):
             env0.setdefault('self.' + t, '<%s>' % t)
